@@ -167,6 +167,31 @@ pub fn generate(rng: &mut Rng, thorough: bool) -> Vec<String> {
             v.push(format!("sw_calp {cal} {era} {ey} {year} {month} {code} {day} {ov}"));
         }
     }
+    // ---- the infallible PlainDate -> PlainDateTime conversion at the first and last dates ----
+    for cal in ["iso8601", "gregory", "hebrew", "japanese"] {
+        for (y, m, d) in [(-271821, 4, 19), (-271821, 4, 20), (-271821, 4, 21), (275760, 9, 13), (275760, 9, 12), (1970, 1, 1), (0, 2, 29)] {
+            v.push(format!("sw_pdtfrom {cal} {y} {m} {d}"));
+        }
+    }
+    // ---- durations assembled from the public records, unvalidated ----
+    {
+        let pool = ["0", "1", "-1", "0.5", "-0.5", "1e300", "-1e300", "1.7976931348623157e308", "9007199254740992", "-9007199254740993",
+            "4294967296", "9223372036854775807", "-9223372036854775808", "1.8446744073709552e19", "1e25", "3.4028236692093846e38", "-3.4028236692093846e38", "86400", "1e-300", "24", "60", "1000"];
+        for _ in 0..400 * scale {
+            let mut f = vec!["0"; 10];
+            for _ in 0..rng.range(1, 4) {
+                f[rng.below(10) as usize] = *rng.pick(&pool);
+            }
+            v.push(format!("sw_durraw {}", f.join(" ")));
+        }
+        for x in pool {
+            for k in 0..10 {
+                let mut f = vec!["0"; 10];
+                f[k] = x;
+                v.push(format!("sw_durraw {}", f.join(" ")));
+            }
+        }
+    }
     // ---- zoned date-times: every zone at extreme and transition-prone instants ----
     let zones = zone_ids();
     let instants: [i128; 14] = [
@@ -352,6 +377,122 @@ pub fn eval(t: &[&str]) -> Option<String> {
                 let mut q = p.clone();
                 q.calendar = Calendar::default();
                 a.r("PlainDate::with", base.with(q, Some(ov)));
+            }
+            Some(a.done())
+        }
+        "sw_pdtfrom" => {
+            // the infallible PlainDate -> PlainDateTime conversion, then every operation of the date-time it gives
+            let Some(cal) = a.r("Calendar::from_str", Calendar::from_str(t[1])) else { return Some(a.done()) };
+            let Some(d) = a.r("PlainDate::try_new", PlainDate::try_new(i(t[2]) as i32, i(t[3]) as u8, i(t[4]) as u8, cal)) else { return Some(a.done()) };
+            let dt = PlainDateTime::from(d.clone());
+            a.r("to_ixdtf_string", dt.to_ixdtf_string(ToStringRoundingOptions::default(), DisplayCalendar::Auto));
+            let _ = (dt.iso_year(), dt.iso_month(), dt.iso_day(), dt.hour(), dt.nanosecond());
+            let _ = dt.year();
+            let _ = dt.month();
+            let _ = dt.month_code();
+            let _ = dt.day();
+            let _ = dt.day_of_week();
+            let _ = dt.day_of_year();
+            a.r("week_of_year", dt.week_of_year());
+            a.r("year_of_week", dt.year_of_week());
+            let _ = dt.days_in_month();
+            let _ = dt.days_in_year();
+            let _ = dt.in_leap_year();
+            let _ = PlainDate::from(dt.clone());
+            let _ = PlainTime::from(dt.clone());
+            let _ = PlainDateTime::compare_iso(&dt, &dt);
+            a.r("with_calendar", dt.with_calendar(Calendar::default()));
+            if let Some(pt) = a.r("PlainTime::try_new", PlainTime::try_new(0, 0, 0, 0, 0, 1)) {
+                a.r("with_time", dt.with_time(pt));
+            }
+            for f in [["0", "0", "0", "0", "0", "0", "0", "0", "0", "0"], ["0", "0", "0", "0", "0", "0", "0", "0", "0", "1"], ["0", "0", "0", "0", "0", "0", "0", "0", "0", "-1"], ["0", "1", "0", "1", "1", "0", "0", "0", "0", "0"], ["0", "0", "0", "-1", "0", "0", "0", "0", "0", "0"]] {
+                let Ok(du) = duration_from(&f) else { continue };
+                a.r("add", dt.add(&du, None));
+                a.r("subtract", dt.subtract(&du, Some(ArithmeticOverflow::Reject)));
+            }
+            for (oy, om, od) in [(i(t[2]) as i32, i(t[3]) as u8, i(t[4]) as u8), (1970, 1, 1), (-271821, 4, 20), (275760, 9, 13)] {
+                let Some(o) = a.r("PlainDateTime::try_new", PlainDateTime::try_new(oy, om, od, 12, 0, 0, 0, 0, 0, dt.calendar().clone())) else { continue };
+                for l in [Unit::Year, Unit::Month, Unit::Week, Unit::Day, Unit::Hour, Unit::Nanosecond] {
+                    a.r("until", dt.until(&o, diff_settings(Some(l), None, 1)));
+                    a.r("since", dt.since(&o, diff_settings(Some(l), Some(Unit::Hour.min(l)), 1)));
+                    a.r("until (other)", o.until(&dt, diff_settings(Some(l), None, 1)));
+                }
+            }
+            for u in [Unit::Day, Unit::Hour, Unit::Minute, Unit::Nanosecond] {
+                let mut ro = RoundingOptions::default();
+                ro.smallest_unit = Some(u);
+                a.r("round", dt.round(ro));
+            }
+            PROVIDER.with(|p| {
+                for z in ["UTC", "+23:59", "-23:59", "America/New_York"] {
+                    let Some(tz) = a.r("TimeZone::try_from_str", TimeZone::try_from_str(z)) else { continue };
+                    for dis in [Disambiguation::Compatible, Disambiguation::Reject] {
+                        a.r("to_zoned_date_time", dt.to_zoned_date_time_with_provider(&tz, dis, p));
+                    }
+                }
+            });
+            // last: `Display` has no failure path of its own
+            let _ = dt.to_string();
+            Some(a.done())
+        }
+        "sw_durraw" => {
+            // durations assembled from the public records without the validating constructor: any finite doubles,
+            // mixed signs and fractions included (`Duration::from(DateDuration)`, `Duration::from_day_and_time`)
+            use temporal_rs::primitive::FiniteF64;
+            let mut fs = Vec::new();
+            for k in 1..11 {
+                let Ok(x) = t[k].parse::<f64>() else { return None };
+                let Some(x) = a.r("FiniteF64::try_from", FiniteF64::try_from(x)) else { return Some(a.done()) };
+                fs.push(x);
+            }
+            let mut dd = temporal_rs::DateDuration::default();
+            dd.years = fs[0]; dd.months = fs[1]; dd.weeks = fs[2]; dd.days = fs[3];
+            let mut td = temporal_rs::TimeDuration::default();
+            td.hours = fs[4]; td.minutes = fs[5]; td.seconds = fs[6]; td.milliseconds = fs[7]; td.microseconds = fs[8]; td.nanoseconds = fs[9];
+            let durs = [Duration::from(dd), Duration::from(td), Duration::from_day_and_time(fs[3], &td)];
+            let Some(d0) = a.r("PlainDate::try_new", PlainDate::try_new(2020, 1, 31, Calendar::default())) else { return Some(a.done()) };
+            let Some(dt0) = a.r("PlainDateTime::try_new", PlainDateTime::try_new(2020, 1, 31, 12, 0, 0, 0, 0, 0, Calendar::default())) else { return Some(a.done()) };
+            let Some(t0) = a.r("PlainTime::try_new", PlainTime::try_new(12, 0, 0, 0, 0, 0)) else { return Some(a.done()) };
+            let Some(i0) = a.r("Instant::try_new", Instant::try_new(0)) else { return Some(a.done()) };
+            let Some(ym0) = a.r("PlainYearMonth::new_with_overflow", PlainYearMonth::new_with_overflow(2020, 1, None, Calendar::default(), ArithmeticOverflow::Reject)) else { return Some(a.done()) };
+            for du in durs.iter() {
+                let _ = (du.sign() as i8, du.is_zero(), du.is_time_within_range());
+                let _ = du.negated();
+                let _ = du.abs();
+                a.r("as_temporal_string", du.as_temporal_string(ToStringRoundingOptions::default()));
+                let mut so = ToStringRoundingOptions::default();
+                so.smallest_unit = Some(Unit::Millisecond);
+                a.r("as_temporal_string(ms)", du.as_temporal_string(so));
+                a.r("Duration::add", du.add(du));
+                a.r("Duration::subtract", du.subtract(&du.negated()));
+                a.r("PlainDate::add", d0.add(du, None));
+                a.r("PlainDate::subtract", d0.subtract(du, Some(ArithmeticOverflow::Reject)));
+                a.r("PlainDateTime::add", dt0.add(du, None));
+                a.r("PlainDateTime::subtract", dt0.subtract(du, Some(ArithmeticOverflow::Reject)));
+                a.r("PlainTime::add", t0.add(du));
+                a.r("PlainTime::subtract", t0.subtract(du));
+                a.r("Instant::add", i0.add(*du));
+                a.r("Instant::subtract", i0.subtract(*du));
+                a.r("PlainYearMonth::add", ym0.add(du, ArithmeticOverflow::Constrain));
+                PROVIDER.with(|p| {
+                    for (l, sm) in [(None, Some(Unit::Second)), (Some(Unit::Year), Some(Unit::Day)), (Some(Unit::Hour), None), (Some(Unit::Day), Some(Unit::Nanosecond))] {
+                        let mut ro = RoundingOptions::default();
+                        ro.largest_unit = l;
+                        ro.smallest_unit = sm;
+                        a.r("Duration::round", du.round_with_provider(ro, None, p));
+                        a.r("Duration::round(date)", du.round_with_provider(ro, Some(RelativeTo::PlainDate(d0.clone())), p));
+                    }
+                    for u in [Unit::Year, Unit::Week, Unit::Day, Unit::Hour, Unit::Nanosecond] {
+                        a.r("Duration::total", du.total_with_provider(u, None, p));
+                        a.r("Duration::total(date)", du.total_with_provider(u, Some(RelativeTo::PlainDate(d0.clone())), p));
+                    }
+                    a.r("Duration::compare", du.compare_with_provider(&du.negated(), None, p));
+                    a.r("Duration::compare(date)", du.compare_with_provider(&du.negated(), Some(RelativeTo::PlainDate(d0.clone())), p));
+                    if let Some(z) = a.r("ZonedDateTime::try_new", ZonedDateTime::try_new(0, Calendar::default(), TimeZone::default())) {
+                        a.r("ZonedDateTime::add", z.add_with_provider(du, None, p));
+                        a.r("Duration::total(zdt)", du.total_with_provider(Unit::Day, Some(RelativeTo::ZonedDateTime(z.clone())), p));
+                    }
+                });
             }
             Some(a.done())
         }
